@@ -705,6 +705,7 @@ func buildBSCAt(rng *rand.Rand, heights int, t uint64) (*bsctypes.ClientState, *
 	cs := &bsctypes.ClientState{Header: *h0, ChainId: chainID, Epoch: epoch, BlockInteval: 3, Validators: addrs, ContractAddress: make([]byte, 20), TrustingPeriod: 1 << 40}
 	cons := &bsctypes.ConsensusState{Timestamp: h0.Time, Height: h0.Height, Root: h0.Root}
 	var steps []bscStep
+	dupAnnounced := false
 	for i := 1; i <= heights; i++ {
 		n := anchor + uint64(i)
 		t += 3
@@ -722,6 +723,14 @@ func buildBSCAt(rng *rand.Rand, heights int, t uint64) (*bsctypes.ClientState, *
 		if n%epoch == 0 {
 			si = (si + 1) % len(sizes)
 			list = pick(sizes[si])
+			if anchor+uint64(heights)-n < epoch {
+				// the last announced list names one validator twice (the client takes such a list as it comes); the chain
+				// below ends with the header that switches to it, so nothing here depends on what a duplicate means
+				list = pick(9)
+				list = append(list, list[rng.Intn(len(list))])
+				sort.Slice(list, func(i, j int) bool { return bytesLess(list[i], list[j]) })
+				dupAnnounced = true
+			}
 		}
 		// ineligible sealers first
 		for _, a := range cur {
@@ -752,6 +761,10 @@ func buildBSCAt(rng *rand.Rand, heights int, t uint64) (*bsctypes.ClientState, *
 		recents[n] = signer
 		if list != nil {
 			pend = list
+		}
+		if dupAnnounced && n%epoch == uint64(len(cur)/2) {
+			// this header made the client adopt the list with the duplicate: stop here
+			break
 		}
 		if n%epoch == uint64(len(cur)/2) {
 			newLimit := uint64(len(pend)/2 + 1)
